@@ -87,7 +87,8 @@ def mutate(g, how):
         # make it do something: scale the Cartesian coordinates first if they exist
         g.normalize_cartesian_coordinates()
     elif how == "face_centers":
-        g.construct_face_centers(method="welzl")
+        # (the Welzl variant shuffles with the global numpy RNG and is not reproducible)
+        g.construct_face_centers(method="cartesian average")
     elif how == "setter":
         lat = g.node_lat
         g.node_lat = xr.DataArray(np.asarray(lat.values) * 0.5, dims=lat.dims, attrs=dict(lat.attrs))
@@ -192,7 +193,9 @@ def _gdf_split(fp):
 class Session:
     """Real objects of one history."""
 
-    def __init__(self, sources):
+    def __init__(self, sources, mode="fresh"):
+        self.mode = mode  # "fresh": judge against freshly opened grids; "twin": record only (see replay_twin)
+        self.last_fp = None
         self.sources = dict(sources)  # handle -> source name
         self.grids = {}
         self.muts = {}  # handle -> list of mutators applied through this handle (the ideal's view)
@@ -227,7 +230,7 @@ class Session:
             ev["obs"] = []
         elif act == "Mutate":
             o = outcome(lambda: mutate(g, args[0]))
-            fr = outcome(lambda: mutate(FRESH.grid(src, self.muts[h]), args[0]))
+            fr = o if self.mode == "twin" else outcome(lambda: mutate(FRESH.grid(src, self.muts[h]), args[0]))
             self.muts[h] = self.muts[h] + [args[0]]
             self.digests[h] = {}
             ev["raised"], ev["fresh_raised"], ev["res_ok"], ev["obs"] = o.raised, fr.raised, o.raised == fr.raised, []
@@ -239,6 +242,16 @@ class Session:
         elif act == "EditReturned":
             _edit_returned(g, args[0], self.returned, h)
             ev["raised"], ev["fresh_raised"], ev["res_ok"], ev["obs"] = False, False, True, []
+        elif self.mode == "twin":
+            o = outcome(lambda: call(g, act, args))
+            self.last_fp = o
+            ev["raised"], ev["fresh_raised"], ev["res_ok"], ev["obs"] = o.raised, o.raised, True, []
+            if not o.raised:
+                if act == "ToXarray":
+                    self.exports[(h, args[0])] = o.value
+                if act in ("ToGdf", "ToPoly", "ToLine", "DataToGdf"):
+                    self.returned.append(("%s%s@%d" % (act, list(args), h), o.value, o.fp, act, h))
+                    self.returned = self.returned[-12:]
         else:
             o = outcome(lambda: call(g, act, args))
             fr = FRESH.op(src, self.muts[h], act, args)
@@ -270,7 +283,10 @@ class Session:
         grew = []
         caches = {}
         for hh, gg in sorted(self.grids.items()):
-            st, detail = G_project(gg, self.sources[hh], self.muts[hh], self.digests[hh])
+            if self.mode == "twin":
+                st, detail = G.project(gg, None, False, None)
+            else:
+                st, detail = G_project(gg, self.sources[hh], self.muts[hh], self.digests[hh])
             bad += ["%d:%s" % (hh, v) for v in st["bad"]]
             if hh == h:
                 grew = sorted(set(st["store"]) - self.prev_store[hh])
@@ -281,6 +297,7 @@ class Session:
         ev["bad"] = sorted(set(bad))
         ev["grew"] = grew
         ev["caches"] = caches
+        ev["inputs"] = sorted("%d:%s" % (hh, n) for hh, gg in self.grids.items() for n in G.inputs_changed(gg))
         ev["tmpl"] = G.templates_changed()
         if ev["tmpl"]:
             G.templates_restore()
@@ -452,4 +469,82 @@ def replay(history, sources):
             events.append({"act": act, "h": h, "args": list(args), "skipped": True})
             break
         events.append(s.step(act, h, list(args)))
+    return events
+
+
+# ----------------------------------------------------------------------------- non-interference (C19)
+def lineage(history, handle):
+    """The steps of `history` that make up `handle`'s own past: its own steps since it came into
+    being, its parent's steps before the copy (recursively), and no caller edits at all."""
+    keep = []
+    cur = handle
+    for i in range(len(history) - 1, -1, -1):
+        act, h, args = history[i]
+        if act in ("EditExport", "EditReturned"):
+            continue
+        if act == "Copy" and args[0] == cur:
+            keep.append(i)
+            cur = h
+        elif h == cur and act != "Copy":
+            keep.append(i)
+    return [history[i] for i in sorted(keep)]
+
+
+def _var_digests(grid):
+    out = {}
+    for name in grid._ds.variables:
+        try:
+            out[str(name)] = G._digest(G._fp_dataarray(grid._ds[name]))
+        except Exception as e:  # noqa
+            out[str(name)] = "unreadable:%s" % type(e).__name__
+    return out
+
+
+def replay_twin(history, sources):
+    """Replay `history`; judge non-interference: what every handle reports at the end (its last
+    result, every variable its dataset holds) equals what it reports after its own lineage
+    alone.  Constructor inputs, templates and earlier returned objects are checked at every step."""
+    s = Session(sources, mode="twin")
+    events = []
+    replay.last_init = {str(h): sorted(st) for h, st in s.prev_store.items()}
+    for act, h, args in history:
+        if h not in s.grids:
+            events.append({"act": act, "h": h, "args": list(args), "skipped": True})
+            return events
+        events.append(s.step(act, h, list(args)))
+    last = events[-1]
+    final_h = history[-1][1]
+    final_act = history[-1][0]
+    bad = []
+    detail = {}
+    for hh, gg in sorted(s.grids.items()):
+        lin = lineage(history, hh)
+        if len(lin) == len(history):
+            continue  # nothing was removed: the run is its own twin
+        t = Session(sources, mode="twin")
+        for act, h, args in lin:
+            t.step(act, h, list(args))
+        if hh not in t.grids:
+            continue
+        a, b = _var_digests(gg), _var_digests(t.grids[hh])
+        for name in sorted(set(a) & set(b)):
+            if a[name] != b[name] and name not in G.UNJUDGED_VARS:
+                # digests are exact; confirm with the tolerant comparison
+                ok, where = G.fp_equal(G._fp_dataarray(gg._ds[name]), G._fp_dataarray(t.grids[hh]._ds[name]))
+                if not ok:
+                    bad.append("%d:%s" % (hh, name))
+                    detail["%d:%s" % (hh, name)] = where
+        if hh == final_h and final_act not in ("EditExport", "EditReturned", "Mutate", "Copy") and lin and lin[-1] == history[-1]:
+            o, w = s.last_fp, t.last_fp
+            last["fresh_raised"] = w.raised
+            if o.raised or w.raised:
+                ok, where = o.raised == w.raised, "outcome class"
+            else:
+                ok, where = G.fp_equal(o.fp, w.fp)
+            last["res_ok"] = bool(ok)
+            if not ok:
+                last["where"] = where
+    last["bad"] = sorted(bad)
+    if detail:
+        last["bad_detail"] = detail
     return events
